@@ -324,12 +324,22 @@ def pointer_range(cx):
     a = bool(push) and all(cx.has_guard(s, r'^l[te]\(arg1\.offset,(16383|16384)\)$|^l[te]\(arg2,(16383|16384)\)$|^eq\(0,bitand\(arg2,49152\)\)$') for s in push)
     ptr = [s for s in cx.calls(em, r'<u16 as .*BinEncodable>::emit$') if re.search(r'^<u16 as BinEncodable>::emit\(bitor\(49152,', s.term)]
     cx.floor('C02.G4', len(ptr), 1, 'pointer emissions in Name::emit')
-    b = bool(ptr) and all(cx.has_guard(s, r'^eq\(0,bitand\(BinEncoder::get_label_pointer\(.*\)@Some\.0,49152\)\)$|^lt\(BinEncoder::get_label_pointer\(.*\)@Some\.0,16384\)$') for s in ptr)
+    def use_guarded(s):
+        if cx.has_guard(s, r'^eq\(0,bitand\(BinEncoder::get_label_pointer\(.*\)@Some\.0,49152\)\)$|^lt\(BinEncoder::get_label_pointer\(.*\)@Some\.0,16384\)$'):
+            return True
+        # combinator form: get_label_pointer(..).filter(|loc| loc & 0xC000 == 0) - Option::filter keeps the value or yields None
+        m = re.search(r'bitor\(49152,Option::filter\(BinEncoder::get_label_pointer\(.*\),closure:<Name as BinEncodable>::emit::(\{closure@filter#\d+\})\)@Some\.0\)', s.term)
+        c = cx.prog.fns.get(em.path + '::' + m.group(1)) if m else None
+        if c is None:
+            return False
+        t = cx.true_returns(c)
+        return len(t) == 1 and any(re.search(r'^eq\(0,(?:<&u16 as BitAnd<u16>>::)?bitand\(arg2,49152\)\)$|^lt\(arg2,16384\)$', x) for x in t[0].extra)
+    b = bool(ptr) and all(use_guarded(s) for s in ptr)
     cx.check('C02.G4', a or b, em.path, 'pointer', 'pointer-offset<2^14(guarded where stored or where used)',
              f'stored-below-0x3FFF={a}; used-only-if-top-bits-clear={b}', ptr[0].loc if ptr else '',
              sample={'fn': 'Name::emit / BinEncoder::store_label_pointer', 'stored_guard': a, 'use_guard': b, 'holds': a or b})
     for s in ptr:
-        cx.check('C02.G4', bool(re.search(r'^<u16 as BinEncodable>::emit\(bitor\(49152,BinEncoder::get_label_pointer\(', s.term)), em.path, s.key(), 'pointer=0xC000|stored-offset', s.term[:120], s.loc)
+        cx.check('C02.G4', bool(re.search(r'^<u16 as BinEncodable>::emit\(bitor\(49152,(?:Option::filter\()?BinEncoder::get_label_pointer\(', s.term)), em.path, s.key(), 'pointer=0xC000|stored-offset', s.term[:120], s.loc)
 
 
 def ecs_bounds(cx):
@@ -356,8 +366,30 @@ def ecs_bounds(cx):
                  'encoder-bounds-address-octets-by-family-size', s.term[:120], s.loc)
 
 
+def record_fields(cx):
+    """S3: the fixed fields of a decoded resource record are the wire values themselves.  TTL and CLASS are overloaded by pseudo
+    records (OPT: EXTENDED-RCODE | VERSION | flags in the TTL, payload size in the CLASS; mDNS cache-flush bit): a read-side
+    "sanitisation" of either (clamping a TTL above 2^31-1, say) is correct for ordinary records and silently rewrites the others, so
+    that decode(encode(m)) != m.  Record::read builds its Record from read_u32 / the class reader / Name::read unchanged."""
+    rd = cx.fn('C02.S3', "<hickory_proto::rr::record::Record as hickory_proto::serialize::binary::BinDecodable<'r>>::read")
+    if not rd:
+        return
+    cons = cx.constructions(rd, 'hickory_proto::rr::record::Record')
+    cx.floor('C02.S3', len(cons), 1, 'Record constructions in Record::read')
+    want = {'ttl': r'^Restrict::unverified\(try\(BinDecoder::read_u32\(arg1\)\)@Continue\.0\)$',
+            'name': r"^try\(<Name as BinDecodable<'r>>::read\(arg1\)\)@Continue\.0$",
+            'dns_class': r"^phi\(DNSClass::for_opt\(Restrict::unverified\(try\(BinDecoder::read_u16\(arg1\)\)@Continue\.0\)\)\|try\(<DNSClass as BinDecodable<'_>>::read\(arg1\)\)@Continue\.0\)$"
+                         r"|^phi\(try\(<DNSClass as BinDecodable<'_>>::read\(arg1\)\)@Continue\.0\|DNSClass::for_opt\(Restrict::unverified\(try\(BinDecoder::read_u16\(arg1\)\)@Continue\.0\)\)\)$"}
+    for (bi, si, loc), fields in cons:
+        for k, rx_ in want.items():
+            v = shorten(fields.get(k, ''))
+            cx.check('C02.S3', bool(re.search(rx_, v)), rd.path, 'field:' + k, 'decoded-record-field-is-the-wire-value', f'{k} = {v[:200]}', loc,
+                     sample={'fn': 'Record::read', 'field': k, 'value': v[:120], 'holds': bool(re.search(rx_, v))})
+
+
 def run(cx):
     pure_codec(cx)
+    record_fields(cx)
     ecs_bounds(cx)
     pointer_range(cx)
     variant_table(cx, 'C02.T1', 'RData', P + 'rr::record_data::RData::read', r'^<hickory_proto::rr::record_data::RData as hickory_proto::serialize::binary::BinEncodable>::emit$',
